@@ -317,6 +317,7 @@ class Recv(Contract):
         buf = st.mem[W.buffer.ident]
         r = SBytes(MEMVIEW, k, buf.at, view_of=W.buffer.ident)
         st.ghost.setdefault('rx_log', []).append((k, r))
+        st.ghost.setdefault('recv_values', []).append(r)
         return r
 
     def ensures(self, ip, a, old, res):
